@@ -31,6 +31,14 @@ static unsigned char* out_buf(size_t n)
 }
 static void out_free(unsigned char* p, size_t n) { free(n ? p : p - 1); }
 
+/* a decode whose null-output probe FAILED, once more with non-null outputs (a block large enough for anything a
+   correct decoder can produce from n input octets): some paths copy from the input only when the output is present,
+   so an over-read of a rejected input is visible only here (the input is an exact-size block) */
+#define FAIL_NONNULL(call_, cap_) do { size_t cap__ = (cap_); size_t len2 = 0; \
+	v = out_buf(cap__); memset(v, 0, cap__); \
+	printf((call_) == ERR ? "err" : "null-mismatch"); (void)len2; \
+	out_free(v, cap__); } while (0)
+
 /* a FAILED fixed-length decode into the caller's buffer of exactly the declared capacity: the block is exact
    (a write past the capacity is an ASan report) and carries a canary (the models say a failed decode writes nothing) */
 #define FAIL_INTO(call_, cap_) do { size_t cap__ = (cap_), i__, w__ = 0; \
@@ -248,7 +256,7 @@ static void handle(int argc, char** argv)
 		tag = (u32)u_arg(argv[2]);
 		len = 0x5A5A5A5A;
 		r = derTUINTDec(0, &len, x, n, tag);
-		if (r == ERR) printf("err");
+		if (r == ERR) FAIL_NONNULL(derTUINTDec(v, &len2, x, n, tag), n + 1);
 		else
 		{
 			size_t len2 = 0;
@@ -298,7 +306,7 @@ static void handle(int argc, char** argv)
 		tag = (u32)u_arg(argv[2]);
 		len = 0x5A5A5A5A;
 		r = derTBITDec(0, &len, x, n, tag);
-		if (r == ERR) printf("err");
+		if (r == ERR) FAIL_NONNULL(derTBITDec(v, &len2, x, n, tag), n + 1);
 		else
 		{
 			size_t len2 = 0, vl = (len + 7) / 8;
@@ -333,7 +341,7 @@ static void handle(int argc, char** argv)
 		tag = (u32)u_arg(argv[2]);
 		len = 0x5A5A5A5A;
 		r = derTOCTDec(0, &len, x, n, tag);
-		if (r == ERR) printf("err");
+		if (r == ERR) FAIL_NONNULL(derTOCTDec(v, &len2, x, n, tag), n + 1);
 		else
 		{
 			size_t len2 = 0;
@@ -381,7 +389,7 @@ static void handle(int argc, char** argv)
 		tag = (u32)u_arg(argv[2]);
 		len = 0x5A5A5A5A;
 		r = derTPSTRDec(0, &len, x, n, tag);
-		if (r == ERR) printf("err");
+		if (r == ERR) FAIL_NONNULL(derTPSTRDec((char*)v, &len2, x, n, tag), n + 2);
 		else
 		{
 			size_t len2 = 0;
@@ -420,7 +428,7 @@ static void handle(int argc, char** argv)
 		x = hex_arg(argv[1], &n);
 		len = 0x5A5A5A5A;
 		r = derOIDDec(0, &len, x, n);
-		if (r == ERR) printf("err");
+		if (r == ERR) FAIL_NONNULL(derOIDDec((char*)v, &len2, x, n), 11 * n + 16);
 		else
 		{
 			size_t len2 = 0;
@@ -444,7 +452,7 @@ static void handle(int argc, char** argv)
 	{
 		x = hex_arg(argv[1], &n);
 		r = oidFromDER(0, x, n);
-		if (r == ERR) printf("err");
+		if (r == ERR) FAIL_NONNULL(oidFromDER((char*)v, x, n), 11 * n + 16);
 		else
 		{
 			v = out_buf(r + 1);
@@ -494,7 +502,7 @@ static void handle(int argc, char** argv)
 	{
 		x = hex_arg(argv[1], &n);
 		r = apduCmdDec(0, x, n);
-		if (r == ERR) printf("err");
+		if (r == ERR) FAIL_NONNULL(apduCmdDec((apdu_cmd_t*)v, x, n), sizeof(apdu_cmd_t) + n + 8);
 		else
 		{
 			apdu_cmd_t* cmd = (apdu_cmd_t*)out_buf(r);
@@ -537,7 +545,7 @@ static void handle(int argc, char** argv)
 	{
 		x = hex_arg(argv[1], &n);
 		r = apduRespDec(0, x, n);
-		if (r == ERR) printf("err");
+		if (r == ERR) FAIL_NONNULL(apduRespDec((apdu_resp_t*)v, x, n), sizeof(apdu_resp_t) + n + 8);
 		else
 		{
 			apdu_resp_t* resp = (apdu_resp_t*)out_buf(r);
